@@ -169,10 +169,163 @@ async def _scenario(target: str, path: str, seed: int) -> dict[str, Any]:
     return {"ends": ends, "events": events, "problems": problems, "meta": f"{target}/{path} seed={seed} packets={packets} script={script}"}
 
 
+async def _tls_scenario(path: str, seed: int) -> dict[str, Any]:
+    """Receives through AsyncStreamEndpoint over AsyncTLSStreamTransport, cancelled by timeouts / task cancellation while the
+    transport's own writer holds the send lock for scripted periods (the peer drains slowly): the TLS layer has suspension points of
+    its own (send lock before and after a read, receive lock, the underlying recv) and none of them may lose decrypted bytes."""
+    from easynetwork.lowlevel.api_async.backend._asyncio.backend import AsyncIOBackend
+    from easynetwork.lowlevel.api_async.endpoints.stream import AsyncStreamEndpoint
+    from easynetwork.lowlevel.api_async.transports.tls import AsyncTLSStreamTransport
+
+    from .. import memtransport, tlspeer
+
+    rng = random.Random(seed)
+    loop = asyncio.get_running_loop()
+    backend = AsyncIOBackend()
+    npk = rng.randint(3, 8)
+    packets = [f"p{i}" + "x" * rng.randint(0, 30) for i in range(npk)]
+    data = "".join(p + "\n" for p in packets).encode()
+    ends = []
+    acc = 0
+    for p in packets:
+        acc += len(p) + 1
+        ends.append(acc)
+    events: list[dict[str, Any]] = []
+
+    def ev(kind: str, n: int = 0, idx: int = 0, eq: bool = False, held: int = 0) -> None:
+        events.append({"ev": kind, "n": n, "idx": idx, "eq": eq, "held": held})
+
+    frag = rng.choice([1, 5, 100, None, None])
+    lib2peer = memtransport.MemPipe(capacity=4096)
+    peer2lib = memtransport.MemPipe(fragment=frag)
+    inner = memtransport.MemStreamTransport(backend, peer2lib, lib2peer)
+    lib_is_server = rng.random() < 0.5
+    peer = tlspeer.Peer(lib2peer, peer2lib, server_side=not lib_is_server)
+    hs = asyncio.ensure_future(peer.handshake())
+    if lib_is_server:
+        tls = await AsyncTLSStreamTransport.wrap(inner, tlspeer.server_context(), server_side=True, handshake_timeout=60)
+    else:
+        tls = await AsyncTLSStreamTransport.wrap(inner, tlspeer.client_context(), server_hostname="localhost", handshake_timeout=60)
+    await hs
+    endpoint = AsyncStreamEndpoint(tls, _protocols()[path](), max_recv_size=rng.choice([1, 3, 8, 64, 1024]))
+    t0 = loop.time()
+    # the peer's script: plaintext pieces (one TLS record each) at ticks
+    pieces = []
+    pos = 0
+    while pos < len(data):
+        n = rng.randint(1, max(1, min(len(data) - pos, rng.choice([1, 3, 9, 20, 60, 200]))))
+        pieces.append((pos, n, rng.choice([0, 0, 1, 1, 2, 3])))
+        pos += n
+
+    async def peer_writer() -> None:
+        for pos_, n_, dt in pieces:
+            if dt:
+                await asyncio.sleep(dt * TICK)
+            ev("feed", n=n_)
+            await peer.write(data[pos_ : pos_ + n_])
+
+    # the library side also writes: periods during which its send lock is held because the peer is not reading
+    bursts = [(rng.choice([0, 1, 2, 4]), rng.choice([20_000, 60_000, 150_000]), rng.choice([1, 2, 3, 5, 8])) for _ in range(rng.randint(0, 3))]
+    sent_total = sum(b[1] for b in bursts)
+
+    async def lib_writer() -> None:
+        for wait, size, _ in bursts:
+            await asyncio.sleep(wait * TICK)
+            await tls.send_all(b"w" * size)
+
+    async def peer_reader() -> None:
+        got_ = 0
+        for wait, size, hold in bursts:
+            await asyncio.sleep((wait + hold) * TICK)  # the peer looks at its socket only `hold` ticks after the burst started
+            want = got_ + size
+            while got_ < want:
+                chunk = await peer.read(65536)
+                if not chunk:
+                    return
+                got_ += len(chunk)
+
+    side = [asyncio.ensure_future(c()) for c in (peer_writer, lib_writer, peer_reader)]
+    delivered: list[str] = []
+    problems: list[str] = []
+
+    def got(pkt: str) -> None:
+        delivered.append(pkt)
+        idx = len(delivered)
+        ev("deliver", idx=idx, eq=idx <= len(packets) and pkt == packets[idx - 1])
+
+    async def recv_once(mode: str, delay: float) -> None:
+        if mode == "move_on":
+            with backend.move_on_after(delay):
+                got(await endpoint.recv_packet())
+        elif mode == "timeout":
+            try:
+                with backend.timeout(delay):
+                    got(await endpoint.recv_packet())
+            except TimeoutError:
+                pass
+        else:
+            task = asyncio.ensure_future(endpoint.recv_packet())
+            h = loop.call_later(delay, task.cancel)
+            try:
+                got(await task)
+            except asyncio.CancelledError:
+                pass
+            finally:
+                h.cancel()
+
+    try:
+        attempts = 0
+        end_time = t0 + (sum(p[2] for p in pieces) + sum(b[0] + b[2] for b in bursts) + 2) * TICK
+        while len(delivered) < npk and attempts < 80 and loop.time() < end_time:
+            attempts += 1
+            await recv_once(rng.choice(["move_on", "timeout", "task"]), rng.choice([0, 1, 1, 2, 3]) * TICK)
+        while len(delivered) < npk:
+            try:
+                with backend.timeout(120):
+                    got(await endpoint.recv_packet())
+            except TimeoutError:
+                problems.append("final receive timed out: bytes are missing")
+                break
+        done, pending = await asyncio.wait(side, timeout=120)
+        if pending:
+            problems.append("writer / peer tasks did not finish")
+        for t in done:
+            if t.exception() is not None:
+                problems.append(f"side task failed: {t.exception()!r}")
+        try:
+            with backend.move_on_after(2 * TICK):
+                extra = await endpoint.recv_packet()
+                problems.append(f"extra packet delivered: {extra!r}")
+        except Exception as exc:  # noqa: BLE001
+            problems.append(f"unexpected error on the final probe: {exc!r}")
+        ev("end", held=0)
+    finally:
+        for t in side:
+            t.cancel()
+        await asyncio.wait(side, timeout=1)
+        from easynetwork.lowlevel.api_async.transports.utils import aclose_forcefully
+
+        await aclose_forcefully(tls)
+    return {
+        "ends": ends,
+        "events": events,
+        "problems": problems,
+        "meta": f"tls/{path} seed={seed} role={'server' if lib_is_server else 'client'} packets={[len(p) for p in packets]} pieces={pieces} frag={frag} bursts(start,size,peer reads after)={bursts} written={sent_total}",
+    }
+
+
 def run(chk: Check) -> None:
     quick = chk.tier == "quick"
     n = 150 if quick else 1500
     rec: list[dict[str, Any]] = []
+    for path in ("copy", "buffered"):
+        for i in range(n // 2):
+            seed = chk.seed * 100019 + i
+            try:
+                t = vloop.run(lambda: _tls_scenario(path, seed), spin_limit=200000)
+            except vloop.VirtualDeadlock as exc:
+                t = {"ends": [1], "events": [{"ev": "deadlock", "n": 0, "idx": 0, "eq": False, "held": 0}], "problems": [str(exc)], "meta": f"tls/{path} seed={seed}"}
+            rec.append(t)
     for target, path in (("endpoint", "copy"), ("endpoint", "buffered"), ("client", "copy"), ("client", "buffered")):
         for i in range(n if target == "endpoint" else n // 3):
             seed = chk.seed * 100003 + i
